@@ -12,6 +12,10 @@ Alphabet.  Valid datagrams (deviation 0; offered only where the statement's prec
   ("U", i, j)           UseCircuitCode viewer_i -> sim_j (claims the session / opens the circuit on first contact, later a repeat)
   ("vo"|"vr", i, j)     viewer_i -> sim_j ordinary (flags 0) / reliable with two piggy-backed acks      [circuit (i,j) open]
   ("so"|"sr", i, j)     sim_j -> viewer_i ordinary / reliable with acks                                   [circuit (i,j) open]
+                        (simulator packet ids start at 0x100 / 0x300: flags 0 + such an id reads as a SOCKS5 UDP header)
+  ("vc", i, j)          CloseCircuit viewer_i -> sim_j; ("sd", i, j) DisableSimulator sim_j -> viewer_i   [circuit alive]
+                        both must be forwarded once and kill the circuit; afterwards ("U", i, j) is the re-opening
+                        UseCircuitCode (forwarded once, live circuit again); no traffic is offered on a dead circuit
 Garbage (deviation 1): datagram from a foreign host; to an unregistered far address (plain and UseCircuitCode); for a
 region without circuit / before the session is claimed (both directions, incl. a simulator-shaped datagram whose packet id
 makes it look like a SOCKS header: same-IP shortcut); UseCircuitCode with an unknown session id; SOCKS header with frag!=0,
@@ -43,7 +47,9 @@ hmc.msggen; banned templates inbound must be discarded).
 Deviations from DESIGN §C06, forced by the code: (1) viewer -> sim datagrams of a UDP-banned *name* are treated as ordinary
 traffic (the ban list is an inbound rule in lludp_proxy; stated in run.assumptions); (2) BFS is run from two bases (empty
 world; both main circuits already opened by real UseCircuitCode datagrams) because four circuits cannot be opened and
-used within depth 4-5.
+used within depth 4-5; (3) kill / re-open / traffic scenarios longer than the BFS depth are enumerated explicitly
+(``reopen_scenarios``: every (association, region) x {CloseCircuit, DisableSimulator}, alone and next to the other
+association's circuit to the same simulator).
 """
 from __future__ import annotations
 
@@ -117,19 +123,32 @@ class Model:
 
     def __init__(self):
         self.claimed = [False, False]
-        self.open = set()
+        self.open = set()           # (association, region) with a circuit object (alive or dead)
+        self.dead = set()           # subset of open: killed by CloseCircuit / DisableSimulator, not yet re-opened
         self.next_pid: Dict[Tuple[int, int, str], int] = {}
 
+    @staticmethod
+    def first_pid(j, d) -> int:
+        """Viewer numbering starts at 1.  Simulator numbering starts where flags=0 + packet id read as a SOCKS5 UDP
+        header (00 | 00 00 01 xx = RSV 0, FRAG 0, ATYP 1 for sim 0; ... 03 xx = ATYP 3 for sim 1): simulators share
+        the viewer's IP, so only far_to_near_map may decide the direction of such a datagram."""
+        if d == OUT:
+            return 1
+        return 0x100 if j == 0 else 0x300
+
     def take(self, i, j, d) -> int:
-        n = self.next_pid.get((i, j, d), 1)
+        n = self.next_pid.get((i, j, d), self.first_pid(j, d))
         self.next_pid[(i, j, d)] = n + 1
         return n
 
     def last(self, i, j, d) -> int:
-        return self.next_pid.get((i, j, d), 1) - 1
+        return self.next_pid.get((i, j, d), self.first_pid(j, d)) - 1
+
+    def alive(self, i, j) -> bool:
+        return (i, j) in self.open and (i, j) not in self.dead
 
     def key(self):
-        return (tuple(self.claimed), tuple(sorted(self.open)), tuple(sorted(self.next_pid.items())))
+        return (tuple(self.claimed), tuple(sorted(self.open)), tuple(sorted(self.dead)), tuple(sorted(self.next_pid.items())))
 
 
 class Harness:
@@ -162,8 +181,8 @@ class Harness:
         for i in range(self.n):
             for j in (0, 1):
                 evs.append(("U", i, j))
-                if (i, j) in m.open:
-                    evs += [("vo", i, j), ("vr", i, j), ("so", i, j), ("sr", i, j)]
+                if m.alive(i, j):
+                    evs += [("vo", i, j), ("vr", i, j), ("so", i, j), ("sr", i, j), ("vc", i, j), ("sd", i, j)]
         return evs
 
     def garbage_events(self, m: Model):
@@ -204,6 +223,8 @@ class Harness:
                 seen_garbage = True
             elif seen_garbage:
                 return ("valid-after-garbage", tuple(tuple(e) for e in hist))
+        if "reopen" in w.flags:
+            return ("reopen", tuple(tuple(e) for e in hist))
         sims = {}
         for (i, j) in w.model.open:
             sims.setdefault(j, set()).add(i)
@@ -226,9 +247,22 @@ class Harness:
 
         if k == "U":
             j = ev[2]
-            first = (i, j) not in m.open
+            which = "first" if (i, j) not in m.open else ("reopen" if (i, j) in m.dead else "repeat")
+            if which == "reopen":   # a new circuit: both endpoints number their packets from the start again
+                m.next_pid.pop((i, j, OUT), None)
+                m.next_pid.pop((i, j, IN), None)
             viewer(U.use_circuit_code(i, m.take(i, j, OUT)), U.SIMS[j])
-            d.update(cls="valid", dir=OUT, j=j, site="out:UseCircuitCode-" + ("first" if first else "repeat"))
+            d.update(cls="valid", dir=OUT, j=j, site="out:UseCircuitCode-" + which)
+            if which == "reopen":
+                w.flags.add("reopen")
+        elif k == "vc":
+            j = ev[2]
+            viewer(U.serialize(Message("CloseCircuit", packet_id=m.take(i, j, OUT), flags=0)), U.SIMS[j])
+            d.update(cls="valid", dir=OUT, j=j, site="out:CloseCircuit")
+        elif k == "sd":
+            j = ev[2]
+            sim(U.serialize(Message("DisableSimulator", packet_id=m.take(i, j, IN), flags=0x40, direction=Direction.IN)), U.SIMS[j])
+            d.update(cls="valid", dir=IN, j=j, site="in:DisableSimulator")
         elif k in ("vo", "vr"):
             j = ev[2]
             flags, acks = (0, ()) if k == "vo" else (0x50, (m.last(i, j, IN), 7))
@@ -315,12 +349,15 @@ class Harness:
                 j = ev[2]
                 m.claimed[i] = True
                 m.open.add((i, j))
+                m.dead.discard((i, j))
                 r = w.region(i, j)
                 ok = (w.protos[i].session is w.sessions[i] and not w.sessions[i].pending and r is not None
                       and r.circuit is not None and r.circuit.is_alive and r.circuit.near_host == U.VIEWERS[i]
                       and r.circuit.host == U.SIMS[j])
                 if not ok:
                     bad("circuit-open", d["site"], f"after UseCircuitCode viewer{i}->sim{j}: state {after[i]!r} exc={exn}")
+            elif ev[0] in ("vc", "sd"):
+                m.dead.add((i, ev[2]))
         elif d["cls"] == "truncated" and len(sends) == 1:
             a, data, addr = sends[0]
             j = d["j"]
@@ -486,8 +523,12 @@ def framing_domain_case(n: int, port: int, payload: bytes) -> List[Dict[str, str
     return []
 
 
-def types_case(name: str, k: int, direction: str, counts: Optional[Part] = None) -> List[Dict[str, str]]:
-    """One template, value row k, one direction, through one freshly opened circuit."""
+LOOKALIKE_PIDS = (0x100, 0x1FF, 0x300, 0x3FF)
+
+
+def types_case(name: str, k: int, direction: str, counts: Optional[Part] = None, pid: Optional[int] = None) -> List[Dict[str, str]]:
+    """One template, value row k, one direction, through one freshly opened circuit.  ``pid``: flags 0 and that packet
+    id (SOCKS5-header lookalikes for simulator datagrams) instead of the row's header variant."""
     g = gen()
     case = None
     for n, c in enumerate(g.value_rows(name)):
@@ -501,6 +542,9 @@ def types_case(name: str, k: int, direction: str, counts: Optional[Part] = None)
     def bad(clause, site, detail):
         out.append({"clause": clause, "site": site, "detail": detail})
 
+    if pid is not None:
+        case = dict(case)
+        case.update(flags=0, packet_id=pid, acks=(), extra=b"")
     lludp = U.serialize(g.lib_message(case))
     h = Harness(n_sessions=1, base="empty")
     w = h.fresh()
@@ -534,12 +578,16 @@ _BANNED: List[str] = []
 
 
 def _types_worker(item):
-    name, k, direction = item
+    name, k, direction, pid = item
     part = Part()
     part.count("evaluations")
     part.count("types_cases")
-    for v in types_case(name, k, direction, part):
-        part.violation(v["clause"], v["site"], {"kind": "types", "name": name, "row": k, "dir": direction, "seed": _SEED}, v["detail"])
+    if pid is not None:
+        part.count("types_cases_socks_lookalike_id")
+        part.mark_nontrivial(("types-lookalike", name, pid))
+    for v in types_case(name, k, direction, part, pid):
+        part.violation(v["clause"], v["site"] + ("" if pid is None else ":socks-lookalike-id"),
+                       {"kind": "types", "name": name, "row": k, "dir": direction, "seed": _SEED, "pid": pid}, v["detail"])
     return part.dump()
 
 
@@ -563,6 +611,19 @@ def _interleave_worker(item):
     for v in viols:
         part.violation(v["clause"], v["site"], {"kind": "interleave", "base": base, "history": [list(e) for e in hist], "seed": _SEED}, v["detail"])
     return part.dump()
+
+
+def reopen_scenarios():
+    """UseCircuitCode, kill (CloseCircuit from the viewer / DisableSimulator from the simulator), UseCircuitCode again,
+    then every kind of ordinary traffic through the re-opened circuit -- for every (association, region), alone and
+    with the other association holding a circuit to the same simulator."""
+    for i in (0, 1):
+        for j in (0, 1):
+            for kill in ("vc", "sd"):
+                tail = (("U", i, j), (kill, i, j), ("U", i, j), ("vo", i, j), ("so", i, j), ("vr", i, j), ("sr", i, j),
+                        (kill, i, j), ("U", i, j), ("sr", i, j), ("vr", i, j))
+                yield ("empty", tail)
+                yield ("empty", (("U", 1 - i, j),) + tail + (("vo", 1 - i, j), ("so", 1 - i, j)))
 
 
 def interleavings(base: str):
@@ -600,7 +661,14 @@ def run(run: Run):
         "exceptions escaping datagram_received are swallowed by the harness exactly as asyncio's datagram transport does",
         "the UDP ban list applies to simulator->viewer datagrams only (as lludp_proxy documents); a banned name sent by the viewer is ordinary traffic",
         "a UseCircuitCode with the right session id to an unregistered address may claim the session (documented by the repo's test_bad_circuit_not_sent)",
-        "packet-id wrap-around and circuits closed by CloseCircuit/DisableSimulator are outside the BFS alphabet (the all-types sweep sends them once)",
+        "packet-id wrap-around is outside the alphabet",
+        "'open circuit' = the region has a ProxiedCircuit whose is_alive is True. CloseCircuit (viewer) / DisableSimulator (simulator) are valid "
+        "datagrams that must themselves be forwarded once and leave the circuit object in place but dead; the code keeps forwarding on a dead "
+        "circuit (region_by_circuit_addr only tests region.circuit) and the statement says nothing about that, so no ordinary traffic is offered "
+        "or judged on a dead circuit; the re-opening UseCircuitCode must be forwarded once and leave a live circuit (Session.open_circuit: "
+        "'create a circuit, replace a circuit, or do nothing if circuit is already alive'), after which both endpoints number from the start again",
+        "simulator packet ids start at 0x100 (region 0) / 0x300 (region 1) so that unreliable simulator datagrams read as a SOCKS5 UDP header "
+        "(RSV 0, FRAG 0, ATYP 1 / 3); there is no mirror-image ambiguity for viewer datagrams because a viewer address is never a key of far_to_near_map in this universe",
         "HOME viewer-cache scan, per-association re-parse of message.xml and multiprocessing queues are neutralised by hmc.udpharness (environment isolation)",
         "the ACK flag with zero appended acks is treated as equal to no ACK flag (the proxy normalises it away)",
         "all-types sweep uses hmc.msggen value rows (each alphabet element of each variable once), not the full value cross product",
@@ -626,6 +694,7 @@ def run(run: Run):
     items = list(interleavings("one-open")) + list(interleavings("all-open"))
     if quick:
         items = [it for it in items if len(it[1]) == 2 or it[0] == "one-open"]
+    items += list(reopen_scenarios())
     for d in pmap(_interleave_worker, items, run.jobs):
         run.merge(d)
     # 3. framing law
@@ -652,8 +721,10 @@ def run(run: Run):
         rows = g.n_rows(g.templates[name])
         ks = range(min(rows, 2)) if quick else range(rows)
         for k in ks:
-            items.append((name, k, OUT))
-            items.append((name, k, IN))
+            items.append((name, k, OUT, None))
+            items.append((name, k, IN, None))
+        for lp in LOOKALIKE_PIDS:
+            items.append((name, 0, IN, lp))
     for d in pmap(_types_worker, items, run.jobs):
         run.merge(d)
     run.coverage_extra.update(depth=depth, deviation_bound=devb, templates=len(refwire.templates()), banned_templates=len(_BANNED),
@@ -672,7 +743,8 @@ def replay(witness):
     if kind in ("bfs", "interleave"):
         return Harness(2, witness.get("base", "empty")).run_history([tuple(e) for e in witness["history"]])
     if kind == "types":
-        return types_case(witness["name"], int(witness["row"]), witness["dir"])
+        return types_case(witness["name"], int(witness["row"]), witness["dir"], None,
+                          int(witness["pid"]) if witness.get("pid") is not None else None)
     if kind == "framing":
         return framing_case(witness["addr"], int(witness["port"]), witness["payload"])
     if kind == "framing-domain":
